@@ -13,8 +13,8 @@ Representation-independent meaning of the property's words:
 * component hypothesis: `StrictTotal` (irreflexive, transitive, trichotomous);
 * lexicographic order, declaratively: `LexLt`;
 * "transparent": the wrapped result of the same operator on the underlying values — for the integer
-  operators the mathematical reading is `IntTy.Exact` (signed: the exact integer result, representable)
-  and `IntTy.Wrapped` (unsigned: modulo 2^bits).
+  operators the mathematical reading is: signed → the exact integer result, which must be a value of the type
+  (`IntTy.Repr`), unsigned → the result modulo 2^bits (theorems `int_arith_*` in Props/C17.lean).
 -/
 namespace Fcppt.C17
 variable {α : Type}
